@@ -157,3 +157,7 @@ T("c11-flip-guard", ["C11"], RP, "        if self.len is not None and self.len <
 T("c11-magic-literal", ["C11"], RP, "            if magic != MAGIC:", "            if magic != b'MAJI':")
 T("c11-buffer-concat", ["C11"], RP, "        self.buffer += data\n", "        self.buffer = self.buffer + data\n")
 T("c11-guard-order", ["C11"], RP, "        if not self.magic_read and len(self.buffer) >= 4:", "        if len(self.buffer) >= 4 and not self.magic_read:")
+
+T("c19-connected-order", ["C19"], MGR, "        self.connected_peers[key] = remote_peer\n        if key in self.disconnected_peers:\n            del self.disconnected_peers[key]\n", "        if key in self.disconnected_peers:\n            del self.disconnected_peers[key]\n        self.connected_peers[key] = remote_peer\n")
+T("c19-pop-form", ["C19"], MGR, "        self._sanity_check()\n\n        for disconnected_peer in list(self.disconnected_peers.values()):", "        self._sanity_check()\n        # twin\n\n        for disconnected_peer in list(self.disconnected_peers.values()):")
+T("c19-backoff-shift", ["C19"], RP, "            TIME_TO_SECOND_CONNECTION_ATTEMPT * pow(2, self.ban_score),", "            TIME_TO_SECOND_CONNECTION_ATTEMPT * 2 ** self.ban_score,")
